@@ -9,18 +9,36 @@
 (* functions against Ideal for every (len, off, n) of the small word and       *)
 (* prints every case for replay against the real Source implementations        *)
 (* (offsets in the top quarter of the word are mapped to usize::MAX - k).      *)
-EXTENDS Naturals, TLC, Json, IOUtils
+EXTENDS Naturals, Sequences, FiniteSets, TLC, Json, IOUtils
 
 W == 16
 Sizes == {0, 1, 2, 3, 4, 5, 7, 8, 9}     \* 0 stands for the `u8` chunk (SIZE = 1)
 SizeOf(n) == IF n = 0 THEN 1 ELSE n
 
-VARIABLES len, off, n
-vars == <<len, off, n>>
+VARIABLES len, off, n,
+          text      \* second family of cases: a str as a sequence of characters given by their byte lengths (1..4)
+vars == <<len, off, n, text>>
 
-Init == len \in 0..11 /\ off \in 0..(W - 1) /\ n \in Sizes
+Texts == UNION {[1..k -> 1..4] : k \in 0..3}
+
+Init == \/ (len \in 0..11 /\ off \in 0..(W - 1) /\ n \in Sizes /\ text = <<>>)
+        \/ (len = 99 /\ off = 0 /\ n = 0 /\ text \in Texts)
 Next == UNCHANGED vars
 Spec == Init /\ [][Next]_vars
+
+(* ---- char boundaries of str sources (Source::is_boundary, Source::find_boundary; C04, C15) ---- *)
+RECURSIVE Total(_)
+Total(t) == IF t = <<>> THEN 0 ELSE Head(t) + Total(Tail(t))
+RECURSIVE Bounds(_, _)
+Bounds(t, acc) == IF t = <<>> THEN {acc} ELSE {acc} \cup Bounds(Tail(t), acc + Head(t))
+IsBoundaryStr(t, i) == i \in Bounds(t, 0)                       \* in particular FALSE beyond the length
+FindBoundaryStr(t, i) == CHOOSE b \in Bounds(t, 0) : b >= i /\ \A c \in Bounds(t, 0) : c >= i => b <= c
+IsBoundaryBytes(t, i) == i <= Total(t)                          \* [u8]: every index up to the length
+
+BoundaryRec == [text |-> text, total |-> Total(text),
+                isb |-> [i \in 0..(Total(text) + 2) |-> IsBoundaryStr(text, i)],
+                find |-> [i \in 0..Total(text) |-> FindBoundaryStr(text, i)],
+                isbytes |-> [i \in 0..(Total(text) + 2) |-> IsBoundaryBytes(text, i)]]
 
 CheckedAdd(a, b) == IF a + b >= W THEN W ELSE a + b      \* W encodes None (overflow)
 
@@ -30,7 +48,8 @@ ReadUnsafe == LET e == CheckedAdd(off, SizeOf(n)) IN e # W /\ e <= len
 ReadSafe == LET e == CheckedAdd(off, SizeOf(n)) IN e # W /\ off <= e /\ e <= len
 Ideal == off + SizeOf(n) <= len
 
-BoundsRule == ReadUnsafe = Ideal /\ ReadSafe = Ideal
+BoundsRule == len = 99 \/ (ReadUnsafe = Ideal /\ ReadSafe = Ideal)
 
-Emit == PrintT(<<"READ", ToJson([len |-> len, off |-> off, n |-> n, some |-> Ideal])>>)
+Emit == IF len = 99 THEN PrintT(<<"BOUNDARY", ToJson(BoundaryRec)>>)
+        ELSE PrintT(<<"READ", ToJson([len |-> len, off |-> off, n |-> n, some |-> Ideal])>>)
 =============================================================================
